@@ -208,9 +208,9 @@ impl_divide_none!(yui::GaussInt<i64>, yui::GaussInt<i128>, yui::GaussInt<BigInt>
     yui::poly::HPoly<'x', yui::Ratio<i64>>, yui::poly::HPoly<'x', yui::Ratio<BigInt>>, yui::poly::HPoly<'x', yui::FF<3>>);
 
 pub fn fits(v: &RV, bits: Option<u32>) -> bool {
-    // arbitrary-precision types: a history ends once a value passes 2^65536 (repeated squaring of the accumulator would
+    // arbitrary-precision types: a history ends once a value passes 2^8192 (repeated squaring of the accumulator would
     // otherwise double the length at every step; such values only cost time)
-    let b = bits.unwrap_or(65_536);
+    let b = bits.unwrap_or(8_192);
     let lim = BigInt::one() << b;
     let ok = |x: &BigInt| *x >= -&lim && *x < lim;
     match v { RV::Z(x) => ok(x), RV::Q(q) => ok(q.numer()) && ok(q.denom()), RV::Quad(a, b) => ok(a) && ok(b), RV::PQ(c) => c.iter().all(|q| ok(q.numer()) && ok(q.denom())), _ => true }
